@@ -102,6 +102,37 @@ def record_trace(kind, sig, cuts, flushes=None):
     return {'kind': kind, 'events': ev}, det
 
 
+def alternating_signals(amp, n):
+    """All signals of length n over -amp..amp in which every interior sample is a reversal (mirror of MC_FKM.tla AddSample)."""
+    vals = range(-amp, amp + 1)
+    def rec(s):
+        if len(s) == n:
+            yield tuple(s)
+            return
+        for v in vals:
+            if len(s) == 0 or (len(s) == 1 and v != s[0]) or (len(s) >= 2 and (v - s[-1]) * (s[-1] - s[-2]) < 0):
+                s.append(v)
+                yield from rec(s)
+                s.pop()
+    yield from rec([])
+
+
+def _fkm_sweep(args):
+    """Replay of the MC_FKM state space: every alternating signal x every single chunk border, FKM detector."""
+    amp, n, first = args
+    cnt, viol = 0, []
+    for sig in alternating_signals(amp, n):
+        if sig[0] != first:
+            continue
+        one, _ = _code_obs('F', sig, (n,))
+        for c in range(1, n):
+            got, _ = _code_obs('F', sig, (c, n - c))
+            cnt += 1
+            if got != one and len(viol) < 3:
+                viol.append(('chunked run differs from one-piece run', {'detector': 'F', 'signal': list(sig), 'chunks': [c, n - c]}, one, got))
+    return cnt, viol
+
+
 def run(chk):
     quick = chk.tier == 'quick'
     cfg = os.path.join(SPEC, 'rainflow', 'MC_Chunked_quick.cfg' if quick else 'MC_Chunked_thorough.cfg')
@@ -128,6 +159,23 @@ def run(chk):
         chk.evals(total * 3)
         chk.part('replay', states_replayed=total, detectors=3)
         os.remove(res.dump_path)
+    # (A') FKM detector on a larger alphabet (its rule depends on the rank structure of |values|): TLC on MC_FKM, and the
+    #      same (signal, border) space replayed into the real FKMDetector
+    amp, nlen = (2, 9) if quick else (3, 9)
+    fcfg = os.path.join(SPEC, 'rainflow', 'MC_FKM_quick.cfg' if quick else 'MC_FKM_thorough.cfg')
+    fres = tlc.run(os.path.join(SPEC, 'rainflow', 'MC_FKM.tla'), fcfg, timeout=3000, heap='12g')
+    chk.tlc(os.path.basename(fcfg), fres, 'FKM detector, alphabet -3..3, alternating signals, sample-by-sample with explicit chunk close, <= 1 border')
+    if fres.violated:
+        chk.machinery.append('model invariant %s violated in MC_FKM: %s' % (fres.violated, fres.trace[-1:]))
+    jobs = [(amp, n, f) for n in range(3, nlen + 1) for f in range(-amp, amp + 1)]
+    tot = 0
+    for cnt, viol in par.pmap(_fkm_sweep, jobs, chunksize=1):
+        tot += cnt
+        for what, case, exp, got in viol:
+            chk.violation(what, case, exp, got, part='fkm_sweep')
+    chk.evals(tot)
+    chk.cov['traces_validated_against_impl'] += tot
+    chk.part('fkm_sweep', runs=tot, alphabet='-%d..%d' % (amp, amp), max_len=nlen)
     # (C) recorded executions of longer signals, validated by TLC against the spec
     rng = random.Random(chk.seed * 7919 + 17)
     ntr = 240 if quick else 2400
